@@ -171,3 +171,38 @@ pub use crate::be::idxkey::{IdxKey, IdxSlope};
 // be — the on-disk entry encoding (Entry::to_dbentry / from_dbentry are public but name it)
 
 pub use crate::be::dbentry::DbEntry;
+
+// ---------------------------------------------------------------------------------------------
+// named points: storage statements and snapshot-acquisition / publication steps report here.
+// The harness may install a handler that counts them, makes one return an error (storage
+// fault), aborts the process (crash point) or parks the calling thread (controlled scheduling).
+// Without a handler a point does nothing.
+
+use std::sync::{Arc, RwLock};
+
+pub type PointHandler = Arc<dyn Fn(&'static str) -> Result<(), OperationError> + Send + Sync>;
+
+static POINT_HANDLER: RwLock<Option<PointHandler>> = RwLock::new(None);
+
+pub fn set_point_handler(h: Option<PointHandler>) {
+    if let Ok(mut g) = POINT_HANDLER.write() {
+        *g = h;
+    }
+}
+
+pub fn point(name: &'static str) -> Result<(), OperationError> {
+    let h = POINT_HANDLER.read().ok().and_then(|g| g.as_ref().cloned());
+    match h {
+        Some(h) => h(name),
+        None => Ok(()),
+    }
+}
+
+// ---------------------------------------------------------------------------------------------
+// be — every stored entry as raw (id, bytes) straight from the id2entry table
+
+pub fn be_raw_entries<T: crate::be::BackendTransaction>(
+    be: &mut T,
+) -> Result<Vec<(u64, Vec<u8>)>, OperationError> {
+    crate::be::verif_raw_entries(be)
+}
